@@ -537,6 +537,7 @@ public:
     /// \brief Inserts count copies of character ch at the position index.
     constexpr auto insert(size_type const index, size_type const count, Char const ch) noexcept -> basic_inplace_string&
     {
+        TETL_PRECONDITION(index <= size());
         for (size_type i = 0; i < count; ++i) {
             insert_impl(begin() + index, &ch, 1);
         }
@@ -547,6 +548,7 @@ public:
     /// position index.
     constexpr auto insert(size_type const index, const_pointer s) noexcept -> basic_inplace_string&
     {
+        TETL_PRECONDITION(index <= size());
         insert_impl(begin() + index, s, traits_type::length(s));
         return *this;
     }
@@ -556,6 +558,7 @@ public:
     constexpr auto insert(size_type const index, const_pointer s, size_type const count) noexcept
         -> basic_inplace_string&
     {
+        TETL_PRECONDITION(index <= size());
         insert_impl(begin() + index, s, count);
         return *this;
     }
@@ -563,6 +566,7 @@ public:
     /// \brief Inserts string str at the position index.
     constexpr auto insert(size_type const index, basic_inplace_string const& str) noexcept -> basic_inplace_string&
     {
+        TETL_PRECONDITION(index <= size());
         insert_impl(begin() + index, str.data(), str.size());
         return *this;
     }
@@ -576,6 +580,7 @@ public:
         size_type const count = npos
     ) noexcept -> basic_inplace_string&
     {
+        TETL_PRECONDITION(index <= size());
         using view_type = basic_string_view<Char, traits_type>;
         auto sv         = view_type(str).substr(indexStr, count);
         insert_impl(begin() + index, sv.data(), sv.size());
@@ -616,6 +621,7 @@ public:
         requires string_view_like<StringView>
     constexpr auto insert(size_type const pos, StringView const& view) noexcept -> basic_inplace_string&
     {
+        TETL_PRECONDITION(pos <= size());
         basic_string_view<Char, traits_type> sv = view;
         insert_impl(begin() + pos, sv.data(), sv.size());
         return *this;
@@ -630,6 +636,7 @@ public:
     insert(size_type const index, StringView const& view, size_type const indexStr, size_type const count = npos)
         noexcept -> basic_inplace_string&
     {
+        TETL_PRECONDITION(index <= size());
         basic_string_view<Char, traits_type> sv = view;
 
         auto sub = sv.substr(indexStr, count);
